@@ -2,7 +2,7 @@
 must-pass-through on a statement CFG, handler discipline."""
 import ast
 
-from .model import norm, walk_no_nested, parents, call_name
+from .model import norm, walk_no_nested, parents, call_name, enclosing
 from .poly import Poly, Ratio
 
 
@@ -16,11 +16,65 @@ class FormulaError(Exception):
 IDENTITY_CALLS = {"int", "float", "np.array", "np.asarray", "np.float64", "np.int64", "abs_nonneg"}
 
 
+class Thunk:
+    """an expression together with the environment it must be evaluated in"""
+
+    def __init__(self, node, env):
+        self.node, self.env = node, env
+
+
+class Appended:
+    """a list built by `name = []` + one `name.append(value)` per iteration of `for loopvar in range(..)`"""
+
+    def __init__(self, loopvar, value, loop):
+        self.loopvar, self.value, self.loop = loopvar, value, loop
+
+
+LINSPACE = ("np.linspace", "numpy.linspace")
+
+
+def resolve(node, env, depth=0):
+    """follow single-assignment names and subscripts of appended lists -> (node, env)"""
+    while depth < 60:
+        depth += 1
+        if isinstance(node, ast.Name) and env.get(node.id) is not None:
+            v = env[node.id]
+            if isinstance(v, Appended):
+                return node, env
+            if isinstance(v, Thunk):
+                if isinstance(v.node, ast.Name) and v.node.id == node.id and v.env.get(node.id) is None:
+                    return v.node, v.env
+                node, env = v.node, v.env
+                continue
+            if isinstance(v, ast.Name) and v.id == node.id:
+                return node, env
+            node = v
+            continue
+        if isinstance(node, ast.Subscript) and not isinstance(node.slice, (ast.Slice, ast.Tuple)):
+            base, benv = resolve(node.value, env, depth)
+            if isinstance(base, ast.Name) and isinstance(benv.get(base.id), Appended):
+                ap = benv[base.id]
+                env2 = dict(benv)
+                env2[ap.loopvar] = Thunk(node.slice, env)
+                node, env = ap.value, env2
+                continue
+            if isinstance(base, ast.List) or isinstance(base, ast.Tuple):
+                try:
+                    c = expr_ratio(node.slice, env).const()
+                except FormulaError:
+                    c = None
+                if c is not None and c.denominator == 1 and -len(base.elts) <= int(c) < len(base.elts):
+                    node, env = base.elts[int(c)], benv
+                    continue
+        return node, env
+    raise FormulaError("resolution too deep")
+
+
 def expr_ratio(node, env=None, atom=None, depth=0):
-    """evaluate an arithmetic expression to a Ratio.  env: name -> ast node (forward
-    substitution of single-assignment locals).  atom: callable(node)->str|None to rename leaves."""
-    env = env or {}
-    if depth > 40:
+    """evaluate an arithmetic expression to a Ratio.  env: name -> ast node | Thunk | Appended | None
+    (forward substitution of single-assignment locals).  atom: callable(node)->str|None to rename leaves."""
+    env = env if env is not None else {}
+    if depth > 60:
         raise FormulaError("substitution too deep")
     if isinstance(node, ast.Constant) and isinstance(node.value, (int, float)) and not isinstance(node.value, bool):
         return Ratio(Poly.lift(node.value))
@@ -52,8 +106,20 @@ def expr_ratio(node, env=None, atom=None, depth=0):
             return -expr_ratio(node.operand, env, atom, depth + 1)
         if isinstance(node.op, ast.UAdd):
             return expr_ratio(node.operand, env, atom, depth + 1)
-    if isinstance(node, ast.Name) and node.id in env and env[node.id] is not None:
-        return expr_ratio(env[node.id], env, atom, depth + 1)
+    if isinstance(node, (ast.Name, ast.Subscript)):
+        n2, e2 = resolve(node, env)
+        if n2 is not node or e2 is not env:
+            return expr_ratio(n2, e2, atom, depth + 1)
+        if isinstance(node, ast.Subscript) and not isinstance(node.slice, (ast.Slice, ast.Tuple)):
+            base, benv = resolve(node.value, env)
+            if isinstance(base, ast.Call) and norm(base.func) in LINSPACE and len(base.args) >= 3:
+                a = expr_ratio(base.args[0], benv, atom, depth + 1)
+                b = expr_ratio(base.args[1], benv, atom, depth + 1)
+                n = expr_ratio(base.args[2], benv, atom, depth + 1)
+                k = expr_ratio(node.slice, env, atom, depth + 1)
+                if (n - 1).n.is_zero():
+                    raise FormulaError("linspace of one point")
+                return a + k * (b - a) / (n - 1)
     if isinstance(node, ast.Call):
         fn = norm(node.func)
         if fn in IDENTITY_CALLS and len(node.args) == 1 and not node.keywords:
@@ -63,13 +129,17 @@ def expr_ratio(node, env=None, atom=None, depth=0):
 
 def leaf_text(node, env, atom, depth=0):
     """canonical text of a non-arithmetic leaf, with locals substituted inside subscripts"""
+    if depth > 60:
+        return norm(node)
     if atom is not None:
         t = atom(node)
         if t is not None:
             return t
+    if isinstance(node, (ast.Name, ast.Subscript)):
+        n2, e2 = resolve(node, env)
+        if n2 is not node or e2 is not env:
+            return leaf_text(n2, e2, atom, depth + 1)
     if isinstance(node, ast.Name):
-        if node.id in env and env[node.id] is not None and depth < 40:
-            return leaf_text(env[node.id], env, atom, depth + 1)
         return node.id
     if isinstance(node, ast.Attribute):
         return leaf_text(node.value, env, atom, depth + 1) + "." + node.attr
@@ -101,7 +171,8 @@ def leaf_text(node, env, atom, depth=0):
 
 def local_env(fn_node, upto=None):
     """name -> value node for locals assigned exactly once (straight-line forward substitution);
-    names assigned more than once (or loop targets, augmented) map to None"""
+    names assigned more than once (or loop targets, augmented) map to None; lists built by one
+    append per iteration of a range loop map to Appended"""
     counts, vals = {}, {}
     for n in walk_no_nested(fn_node):
         if isinstance(n, ast.Assign):
@@ -124,7 +195,22 @@ def local_env(fn_node, upto=None):
             for e in ast.walk(n.optional_vars):
                 if isinstance(e, ast.Name):
                     counts[e.id] = counts.get(e.id, 0) + 2
-    return {k: (vals[k] if counts[k] == 1 else None) for k in counts}
+    env = {k: (vals[k] if counts[k] == 1 else None) for k in counts}
+    # appended lists
+    pm = parents(fn_node)
+    appends = {}
+    for n in walk_no_nested(fn_node):
+        if isinstance(n, ast.Call) and isinstance(n.func, ast.Attribute) and n.func.attr == "append" \
+                and isinstance(n.func.value, ast.Name) and len(n.args) == 1:
+            appends.setdefault(n.func.value.id, []).append(n)
+    for name, calls in appends.items():
+        v = env.get(name)
+        if len(calls) == 1 and isinstance(v, ast.List) and not v.elts:
+            loop = enclosing(calls[0], pm, (ast.For, ast.While))
+            if isinstance(loop, ast.For) and isinstance(loop.target, ast.Name) and isinstance(loop.iter, ast.Call) \
+                    and norm(loop.iter.func) == "range":
+                env[name] = Appended(loop.target.id, calls[0].args[0], loop)
+    return env
 
 
 # comparator normal form --------------------------------------------------------
